@@ -14,6 +14,10 @@ import (
 // Lean side runs the runtime model (Model.lean) on the same history and must print the same events,
 // contents and index lookups at every step.  Lean: ExactDriver.lean.
 type exactRun struct {
+	// hk: the queue is held although the transformation has key / index atoms: krt's reverse index recomputes a
+	// superset of inputs earlier than the model's full scan, so the EVENTS of a held block are not compared
+	// (`e=*`), its contents are; every step outside a block stays exact
+	loose  bool
 	c      *caseRun
 	sub    *subscriber
 	seen   int
@@ -26,7 +30,7 @@ func newExactRun(head []string) runner {
 	if !ok {
 		return nil
 	}
-	return &exactRun{c: newCaseRun(tr, false)}
+	return &exactRun{c: newCaseRun(tr, false), loose: contains(head[4:], "hk")}
 }
 
 func (r *exactRun) close() {
@@ -124,6 +128,11 @@ func (r *exactRun) step(toks []string) (string, string) {
 		r.paused = false
 		r.c.gate.Store(nil)
 		close(r.gate)
+		if r.loose {
+			synctest.Wait()
+			r.seen = len(r.sub.snapshot())
+			return "e=* | " + showEntries(r.c.top.List(), all), line
+		}
 		return r.showStep(), line
 	case toks[0] == "lookup" && len(toks) == 2:
 		if r.c.der == nil {
@@ -155,7 +164,22 @@ func genExactCase(r *wire.Rng, n int, w *wire.Out) {
 	// unique then; without fetches every batch has one item and any history is deterministic
 	// (keys may be claimed by two parents, moved new-parent-first, ...: the model has F6 too)
 	free := len(t.Fetches) == 0
-	w.Line("case", fmt.Sprint(n), "exact", t.Token())
+	// with key / index atoms the queue is held in a third of the cases only, and those are flagged `hk`
+	strict := true
+	for _, f := range t.Fetches {
+		for _, a := range f {
+			switch a.Kind {
+			case "key", "keys", "nokeys", "objName", "nsIndex", "valIndex", "outIndex":
+				strict = false
+			}
+		}
+	}
+	hk := !strict && r.Chance(35, 100)
+	if hk {
+		w.Line("case", fmt.Sprint(n), "exact", t.Token(), "hk")
+	} else {
+		w.Line("case", fmt.Sprint(n), "exact", t.Token())
+	}
 	prim := map[string]Obj{}
 	uniq := func(o Obj) Obj {
 		return keepClaims(t, o, func(k string) bool {
@@ -224,7 +248,7 @@ func genExactCase(r *wire.Rng, n int, w *wire.Out) {
 	}
 	for i := 0; i < nops; i++ {
 		// hold the queue for the next few changes: schedule [env, ..., env, proc, ..., proc]
-		if pausedLeft == 0 && canHold && r.Chance(8, 100) {
+		if pausedLeft == 0 && (canHold || hk) && r.Chance(8, 100) {
 			nblk++
 			blk := Obj{NS: "n1", Name: "zz", Val: fmt.Sprintf("b%d", nblk), Ref: "n1/x"}
 			prim[blk.ResourceName()] = blk
